@@ -785,7 +785,8 @@ fn main() {
     };
     if threaded {
       let rw = rng.chance(2, 3);
-      let tiny = cfg!(miri) || args.get("tiny").is_some();
+      // odd shards: tiny scripts with change points on the first steps (short races around cancel / release)
+      let tiny = cfg!(miri) || args.get("tiny").is_some() || args.shard % 2 == 1;
       let kind = if rw && !tiny { *rng.pick(&[0u8, 0, 0, 1, 2]) } else { *rng.pick(&[0u8, 0, 0, 1]) };
       let scn = Scn {
         exec: exec + args.shard * 1_000_003,
@@ -794,7 +795,7 @@ fn main() {
         threads: if tiny { rng.range(2, 3) as usize } else { rng.range(2, 8) as usize },
         ops: if tiny { *rng.pick(&[4usize, 8, 16]) } else { *rng.pick(&[10usize, 50, 200, 600]) },
         kind,
-        profile: chaos::Profile::pick(&mut rng),
+        profile: if tiny { chaos::Profile::pick_tiny(&mut rng) } else { chaos::Profile::pick(&mut rng) },
         gremlin: rng.chance(1, 3),
       };
       let (findings, inconclusive, stats, leaked, totals, sig) = run_threaded(scn.clone(), &cfg, &canary);
